@@ -35,6 +35,16 @@ def handle (j : J) : J :=
            ("all", .arr (g.all.map dnaToJ))]
         else if (j.getBool? "want_first").getD false then [("first", dnaToJ g.first)]
         else []
+      let sweepPart : List (String × J) :=
+        if finite && fuel > 0 && g.all.length ≤ (j.getNat? "sweep_cap").getD 0 then
+          match g.sweepInfo fuel with
+          | some (l, ended, after) =>
+            [("sweep", .obj [("props", .arr (l.map dnaToJ)), ("ended", .bool ended),
+                             ("after_end", .arr (after.map fun p => match p with
+                                | some d => dnaToJ d
+                                | none => .str "stop"))])]
+          | none => [("sweep", .str "error")]
+        else []
       let checks := ((j.getArr? "dnas").getD []).map (checkOne g finite)
       let randoms := ((j.getArr? "draws").getD []).map fun dj =>
         match dj.asArr?.bind (·.mapM drawOfJ) with
@@ -51,7 +61,7 @@ def handle (j : J) : J :=
           | some x, some y => ordToJ (DNA.cmp x y)
           | _, _ => bad "cmp"
         | _ => bad "cmp"
-      .obj (base ++ enumPart ++ [("checks", .arr checks), ("randoms", .arr randoms), ("cmps", .arr cmps)])
+      .obj (base ++ enumPart ++ sweepPart ++ [("checks", .arr checks), ("randoms", .arr randoms), ("cmps", .arr cmps)])
   | _ => bad "op"
 
 def main : IO Unit := driverLoop handle
